@@ -35,6 +35,45 @@ def gen_config(rnd, tier, directed=None):
     }
 
 
+def gen_config_large(rnd):
+    """A large grid (identifiers up to 2^36) whose sharding bits cover the whole identifier,
+    so that every minishard holds one group of 2^preshift adjacent identifiers: far-apart
+    chunks can be stored without the writer having to fill millions of gaps."""
+    e = [rnd.randint(3, 12) for _ in range(3)]
+    if rnd.random() < 0.35:
+        e = [rnd.randint(11, 12) for _ in range(3)]     # identifiers beyond 2^32
+    grid = [rnd.choice([2 ** x, 2 ** x - 1, 2 ** x - rnd.randint(1, 2 ** (x - 1))])
+            for x in e]
+    total = sum(morton_spec.bits_per_axis(grid))
+    pre = rnd.randint(0, 3)
+    rest = max(0, total - pre)
+    mini = rnd.randint(0, min(6, rest))
+    shard = rest - mini + rnd.randint(0, 3)
+    return {
+        "grid": grid, "chunk": rnd.choice([1, 2]), "rem": [0, 0, 0],
+        "minishard_bits": mini, "shard_bits": shard, "preshift_bits": pre,
+        "minishard_index_encoding": rnd.choice(["raw", "gzip"]),
+        "data_encoding": rnd.choice(["raw", "gzip"]),
+        "data_type": rnd.choice(["uint8", "uint16"]), "num_channels": 1, "large": True,
+    }
+
+
+def gen_subset_large(cfg, rnd, n=24):
+    """Positions spread over the whole grid, taken in groups of adjacent identifiers."""
+    out = set()
+    gx, gy, gz = cfg["grid"]
+    corners = [(0, 0, 0), (gx - 1, gy - 1, gz - 1), (gx - 1, 0, 0), (0, gy - 1, gz - 1)]
+    for c in corners:
+        out.add(c)
+    while len(out) < n:
+        p = (rnd.randrange(gx), rnd.randrange(gy), rnd.randrange(gz))
+        out.add(p)
+        if rnd.random() < 0.5:   # a neighbour (often the same preshift group)
+            q = (min(gx - 1, p[0] ^ 1), p[1], p[2])
+            out.add(q)
+    return sorted(out)
+
+
 def sizes_of(cfg):
     return [(g - 1) * cfg["chunk"] + 1 + r for g, r in zip(cfg["grid"], cfg["rem"])]
 
